@@ -361,6 +361,13 @@ def header_writer_rule(prog, res, rule='header-write', int_scale_ok=False):
             else:
                 if fld.get('one_based') and src.replace(' ', '') in ('(%s+1)' % base, '(1+%s)' % base, '(unsignedlong)(%s+1)' % base):
                     pass      # the value member + 1 handed over as a temporary
+                elif not (src == base or src.startswith(base + '[')) and re.search(r'\b%s\b' % re.escape(base), src) and d.get('srck') in ('string', 'other', 'array'):
+                    und_src = src
+                    bad = None
+                    res.undecided(rule, inst, d['where'], 'emitted from %s: derived from %s through an expression the rule does not tabulate [shape not read by the rule]' % (src[:120], fld['member']),
+                                  function=f.sig, expr=inst)
+                    got = []
+                    break
                 elif not (src == base or src.startswith(base + '[')):
                     bad = 'emitted from %s, the field is %s' % (src, fld['member'])
                 elif fld.get('one_based'):
@@ -396,7 +403,7 @@ def header_writer_rule(prog, res, rule='header-write', int_scale_ok=False):
                 break
         if bad:
             res.viol(rule, inst, got[0]['where'], bad, function=f.sig, expr=inst, facts={'cite': fld['cite']})
-        else:
+        elif got:
             res.ok(rule, inst, got[0]['where'], '%d byte(s) at offset %d <- %s' % (total, want_off, fld['member']), function=f.sig, expr=inst)
     if lost is not None:
         pass
@@ -2295,6 +2302,16 @@ def fits_by_writers(prog, cls, field, nbytes, signed=False):
             if w is not None and int(w) <= nbytes:
                 continue
             return False, 'read of %s bytes stored at %s' % (w, f.loc(nid))
+        # a container member constructed with a count only: its elements are value-initialised (zero)
+        c0 = f.nodes[f.strip(rhs, 'noop')]
+        while c0['k'] in ('ExprWithCleanups', 'MaterializeTemporaryExpr', 'CXXBindTemporaryExpr') and c0['ch']:
+            c0 = f.nodes[f.strip(c0['ch'][0], 'noop')]
+        if c0['k'] == 'CXXConstructExpr' and c0['callee'].get('class', '').startswith('std::vector'):
+            real = [a for a in c0.get('args', []) if f.nodes[f.strip(a, 'all')]['k'] != 'CXXDefaultArgExpr']
+            if len(real) == 0 or (len(real) == 1 and f.nodes[f.strip(real[0], 'noop')].get('tc') in ('u', 's')):
+                continue
+            if len(real) == 2 and f.nodes[f.strip(real[0], 'noop')].get('tc') in ('u', 's') and 'cv' in f.nodes[f.strip(real[1], 'all')] and 0 <= int(f.nodes[f.strip(real[1], 'all')]['cv']) < lim:
+                continue
         return False, 'set from %s at %s' % (Renderer(f).render(rhs)[:60], f.loc(nid))
     return True, ''
 
@@ -2415,8 +2432,20 @@ def truncating_write_rule(prog, res, rule='truncating-write'):
 def vector_elems_fit(prog, cls, field, nbytes):
     """elements of cls::field are only assigned from readUint of <= nbytes bytes (or never)"""
     for f, nid, rhs in _c18.field_writes(prog, cls, field):
-        if not f.implicit:
-            return False, 'whole vector assigned at %s' % f.loc(nid)
+        if f.implicit:
+            continue
+        # a member initialiser that only sizes the vector (count, or count and a small constant): zero / that constant
+        c0 = f.nodes[f.strip(rhs, 'noop')] if rhs is not None else None
+        while c0 is not None and c0['k'] in ('ExprWithCleanups', 'MaterializeTemporaryExpr', 'CXXBindTemporaryExpr') and c0['ch']:
+            c0 = f.nodes[f.strip(c0['ch'][0], 'noop')]
+        if c0 is not None and f.kind == 'ctor' and c0['k'] == 'CXXConstructExpr' and c0['callee'].get('class', '').startswith('std::vector'):
+            real = [a for a in c0.get('args', []) if f.nodes[f.strip(a, 'all')]['k'] != 'CXXDefaultArgExpr']
+            if len(real) <= 1 and all(f.nodes[f.strip(a, 'noop')].get('tc') in ('u', 's') for a in real):
+                continue
+            if len(real) == 2 and f.nodes[f.strip(real[0], 'noop')].get('tc') in ('u', 's') and 'cv' in f.nodes[f.strip(real[1], 'all')] and \
+                    0 <= int(f.nodes[f.strip(real[1], 'all')]['cv']) < (1 << (8 * nbytes)):
+                continue
+        return False, 'whole vector assigned at %s' % f.loc(nid)
     for f in prog.repo_funcs():
         # handed to another function by non-const reference: elements are written elsewhere
         for n in f.calls():
@@ -2521,14 +2550,34 @@ def float_path_rule(prog, res, rule='float-path'):
         # the returned local is initialised from *reinterpret_cast<float*>(c_float)
         txt = R.render(rets[0]['ch'][0])
         okrf = txt in ('*(this.c_float)', '*((float *)this.c_float)') and not conversion_on(rf, rets[0]['ch'][0])
-        reint = any(m['k'] == 'CXXReinterpretCastExpr' and m['t'] == 'float *' for m in rf.nodes)
+        if not okrf:
+            # memcpy(&out, buffer, 4); return out;   (out a float local)
+            rv = rf.nodes[rf.strip(rets[0]['ch'][0], 'all')]
+            if rv['k'] == 'DeclRefExpr' and rv['decl'].get('dk') == 'local' and rv['decl'].get('type') == 'float':
+                for c_ in rf.calls():
+                    if c_['callee'].get('name') == 'memcpy' and len(c_.get('args', [])) == 3:
+                        d0 = rf.nodes[rf.strip(c_['args'][0], 'all')]
+                        tgt = rf.nodes[rf.strip(d0['ch'][0], 'all')] if d0['k'] == 'UnaryOperator' and d0['op'] == '&' and d0['ch'] else None
+                        if tgt is not None and tgt['k'] == 'DeclRefExpr' and tgt['decl'].get('id') == rv['decl']['id'] and 'c_float' in R.render(c_['args'][1]) and \
+                                rf.nodes[rf.strip(c_['args'][2], 'all')].get('cv') == '4':
+                            okrf = True
+        reint = any(m['k'] == 'CXXReinterpretCastExpr' and m['t'] == 'float *' for m in rf.nodes) or any(c_['callee'].get('name') == 'memcpy' for c_ in rf.calls())
         okrf = okrf and reint
         rd = [c for c in rf.calls() if c['callee']['name'] == 'readFile']
-        okrf = okrf and len(rd) == 1 and R.render(rd[0]['args'][0]) == 'this.m_nByteToRead_float' and R.render(rd[0]['args'][1]) == 'this.c_float'
+        okrf = okrf and len(rd) == 1 and R.render(rd[0]['args'][0]) in ('this.m_nByteToRead_float', '4') and R.render(rd[0]['args'][1]) == 'this.c_float'
     if okrf:
         res.ok(rule, 'readFloat', rf.loc(), 'reinterprets the 4 bytes just read as a float (no conversion)', function=rf.sig, expr='readFloat')
     else:
-        res.viol(rule, 'readFloat', rf.loc(), 'readFloat is not a plain reinterpretation of the bytes read into the scratch buffer', function=rf.sig, expr='readFloat')
+        # a demonstrated conversion (arithmetic / integer or double intermediate on the way out) is a violation; another spelling is not
+        conv = None
+        for r_ in rets:
+            conv = conv or conversion_on(rf, r_['ch'][0])
+        ints = [m for m in rf.nodes if m['k'] in ('ImplicitCastExpr', 'CXXStaticCastExpr', 'CStyleCastExpr') and m.get('ck') in ('IntegralToFloating', 'FloatingCast')]
+        if conv or ints or rf.rec['ret'] != 'float':
+            res.viol(rule, 'readFloat', rf.loc(), 'readFloat is not a plain reinterpretation of the bytes read into the scratch buffer (%s)' % (conv or 'a value conversion on the way'), function=rf.sig, expr='readFloat')
+        else:
+            res.undecided(rule, 'readFloat', rf.loc(), 'readFloat hands the bytes over in a form the rule does not read (known: *reinterpret_cast<float*>(buffer), memcpy into a float) [shape not read by the rule]',
+                          function=rf.sig, expr='readFloat')
     res.minimum('REAL payload stores/getters examined', n, 20)
 
 
